@@ -5,6 +5,7 @@ import (
 	"github.com/grafana/cog/internal/jennies/golang"
 	"github.com/grafana/cog/internal/jennies/python"
 	"github.com/grafana/cog/internal/languages"
+	"github.com/grafana/cog/internal/veneers/builder"
 	"github.com/grafana/cog/internal/veneers/option"
 	"github.com/grafana/cog/internal/veneers/rewrite"
 	v "github.com/grafana/cog/internal/zzverif"
@@ -94,4 +95,69 @@ func VerifC09NilChecks() {
 			c09CheckScope(cfg, o.Assignments)
 		}
 	}
+}
+
+// VerifC09NilChecksAcrossBuilders: the guards are scoped per constructor and per option of EACH builder. Two
+// builders write below a nullable parent of the same name: Foo through options (struct_fields_as_options,
+// declared before or after its other option) and Bar through a constant its constructor assigns (the
+// `initialize` builder rule on a nested property). Whatever the order of the two objects, every scope must
+// carry its own nil check: a guard remembered from the previous builder's last option initialises nothing here.
+func VerifC09NilChecksAcrossBuilders() {
+	p := ast.NewSchema("p", ast.SchemaMeta{})
+	mkOpts := func() ast.Type {
+		t := ast.NewStruct(ast.NewStructField("a", ast.String()), ast.NewStructField("b", ast.NewScalar(ast.KindBool)))
+		t.Nullable = true
+		return t
+	}
+	var fooFields []ast.StructField
+	if v.Bool("namefirst") {
+		fooFields = []ast.StructField{ast.NewStructField("name", ast.String()), ast.NewStructField("opts", mkOpts())}
+	} else {
+		fooFields = []ast.StructField{ast.NewStructField("opts", mkOpts()), ast.NewStructField("name", ast.String())}
+	}
+	foo := ast.NewObject("p", "Foo", ast.NewStruct(fooFields...))
+	bar := ast.NewObject("p", "Bar", ast.NewStruct(ast.NewStructField("opts", mkOpts()), ast.NewStructField("title", ast.String())))
+	if v.Bool("foofirst") {
+		p.AddObject(foo)
+		p.AddObject(bar)
+	} else {
+		p.AddObject(bar)
+		p.AddObject(foo)
+	}
+	schemas := ast.Schemas{p}
+	builders := (&ast.BuilderGenerator{}).FromAST(schemas)
+	rw := rewrite.NewRewrite([]rewrite.LanguageRules{{
+		Language:     rewrite.AllLanguages,
+		BuilderRules: []builder.RewriteRule{builder.Initialize(builder.ByName("p", "Bar"), []builder.Initialization{{PropertyPath: "opts.a", Value: "fixed"}})},
+		OptionRules:  []option.RewriteRule{option.StructFieldsAsOptions(option.ByName("p", "Foo", "opts"))},
+	}}, rewrite.Config{})
+	out, err := rw.ApplyTo(schemas, builders, "go")
+	v.Assert(err == nil, "C09: initialize on a nested property / struct_fields_as_options failed")
+	if err != nil {
+		return
+	}
+	var lang languages.Language = &golang.Language{}
+	cfg := (&golang.Language{}).NullableKinds()
+	if v.Bool("python") {
+		lang = &python.Language{}
+		cfg = (&python.Language{}).NullableKinds()
+	}
+	ctx, err := languages.GenerateBuilderNilChecks(lang, languages.Context{Schemas: schemas, Builders: out})
+	v.Assert(err == nil, "C09: nil-check generation failed")
+	if err != nil {
+		return
+	}
+	constants := 0
+	for _, b := range ctx.Builders {
+		c09CheckScope(cfg, b.Constructor.Assignments)
+		for _, as := range b.Constructor.Assignments {
+			if len(as.Path) == 2 {
+				constants++
+			}
+		}
+		for _, o := range b.Options {
+			c09CheckScope(cfg, o.Assignments)
+		}
+	}
+	v.Assert(constants == 1, "C09: the constructor of Bar does not assign the nested constant")
 }
